@@ -43,6 +43,38 @@ CHECKS = {
     },
 }
 
+CHECKS["C19"] = {
+    "machine": "entry",
+    "runs": {"quick": 150_000, "thorough": 6_000_000},
+    "chunk": {"quick": 2500, "thorough": 20_000},
+    "budget_s": {"quick": 75, "thorough": 900},
+    "run_timeout": 20,
+    "manifest": {
+        "text": "Seeded search over histories of mapping operations (set_field, item assignment, pop, del, get, in, lookup, items, "
+                "fields, fields_dict) on an entry and on a forked deep copy, with an insertion-ordered dict as reference model checked "
+                "after every call, and with equality required to track model equality across fork / single-attribute perturbation / "
+                "re-convergence for entries, strings, preambles, both comment classes and fields. Sampling, not enumeration.",
+        "design_ref": "DESIGN.md section 3 / C19",
+        "note": "Trusted: the dict-based reference model (simbib/machines/entry.py). `del e[k]` of an absent key may raise KeyError or return silently; "
+                "items() may or may not carry the ENTRYTYPE/ID pairs; shallow copies are only compared at fork time (they share the field list by construction).",
+        "technique": "deterministic simulation: seeded operation histories on two holders vs dict reference model, equality tracked per step",
+    },
+    "extra": {
+        "rule": "each run = a subject (entry from constructor or parsed from text, or string/preamble/comment/field) and 1-30 (thorough: -60) ops drawn from "
+                "mapping calls over the key pool {title, Title, TITLE, a, b, year}, fork (copy/deepcopy) and single-attribute perturbations on either holder; "
+                "distinct = distinct event-log shape; non-trivial = at least one state-changing op.",
+        "state_measure": "distinct (subject, field-key order of holder 0, holders-equal flag) triples",
+        "expected_probes": ["replace_keeps_position", "new_key_appends", "pop_closes_gap", "pop_absent", "del_absent",
+                            "case_variant_keys_coexist", "fork_copy", "fork_deepcopy", "diverged_then_reconverged",
+                            "eq_true", "eq_false", "cross_class", "perturb_type", "perturb_key", "perturb_raw", "perturb_line",
+                            "perturb_meta", "perturb_fkey", "perturb_fval", "perturb_fline"],
+        "components": {"real": REAL_COMMON + ["bibtexparser.model.Entry/Field/String/Preamble/ExplicitComment/ImplicitComment", "copy.copy / copy.deepcopy"],
+                       "stub": ["the caller (a generated history); the reference model (dict key -> Field, scalar attributes)"]},
+        "assumptions": ["field keys distinct and not ENTRYTYPE/ID (precondition of the statement)",
+                        "start_line/raw are perturbed by rebuilding through the public constructor with the same Field objects"],
+    },
+}
+
 _PURE = ("pure function of its argument: no stream, no state kept between calls, no collaborator that can fail, no schedule or clock; "
          "the only thing a harness could vary is the input, which is input generation / bounded enumeration, not deterministic simulation (DESIGN.md section 1)")
 
